@@ -6,13 +6,16 @@ CONSTANTS MaxSettings, Emit,
           FullPairs     \* TRUE: pairs over all candidates; FALSE: pairs over a reduced candidate set (singles are always complete)
 
 \* "yn" / "g.yn" are yes/no flags (ActionYesNo): booleans like "b", declared differently by the harness
-Shape == [k \in {"i", "f", "b", "s", "o", "os", "l", "m", "ls", "d", "dl", "g.i", "g.s", "g.h.l", "yn", "g.yn"} |->
+\* "items" and "g.values" are ordinary keys whose NAMES are attributes of the Namespace class (stored under a marked name,
+\* _namespace.py:318-331): before fix 737ad47 their values were not normalised on the document channels
+Shape == [k \in {"i", "f", "b", "s", "o", "os", "l", "m", "ls", "d", "dl", "g.i", "g.s", "g.h.l", "yn", "g.yn", "items", "g.values"} |->
   CASE k = "i" -> Ty("scalar", "int", FALSE)   [] k = "f" -> Ty("scalar", "float", FALSE) [] k = "b" -> Ty("scalar", "bool", FALSE)
     [] k = "s" -> Ty("scalar", "str", FALSE)   [] k = "o" -> Ty("scalar", "int", TRUE)    [] k = "os" -> Ty("scalar", "str", TRUE)
     [] k = "l" -> Ty("list", "int", FALSE)     [] k = "m" -> Ty("list", "float", FALSE)   [] k = "ls" -> Ty("list", "str", FALSE)
     [] k = "d" -> Ty("dict", "int", FALSE)     [] k = "dl" -> Ty("dictlist", "int", FALSE)   [] k = "g.i" -> Ty("scalar", "int", FALSE) [] k = "g.s" -> Ty("scalar", "str", FALSE)
-    [] k = "g.h.l" -> Ty("list", "int", FALSE) [] k \in {"yn", "g.yn"} -> Ty("scalar", "bool", FALSE)]
-KeySeq == <<"i", "f", "b", "s", "o", "os", "l", "m", "ls", "d", "dl", "g.i", "g.s", "g.h.l", "yn", "g.yn">>
+    [] k = "g.h.l" -> Ty("list", "int", FALSE) [] k \in {"yn", "g.yn"} -> Ty("scalar", "bool", FALSE)
+    [] k = "items" -> Ty("list", "int", FALSE) [] k = "g.values" -> Ty("scalar", "int", FALSE)]
+KeySeq == <<"i", "f", "b", "s", "o", "os", "l", "m", "ls", "d", "dl", "g.i", "g.s", "g.h.l", "yn", "g.yn", "items", "g.values">>
 
 List(es) == [c |-> "list", e |-> es]
 Dict(es) == [c |-> "dict", e |-> es]
